@@ -270,7 +270,7 @@ def header (d : Dialect) (t : ATy) (p : FP) (bs : Bytes) : Except Err Hdr :=
 
 /-- the counting pass of `parseSequenceOf` -/
 def countElems (d : Dialect) (u : Bool × Nat × Bool) : Nat → Bytes → Except Err Nat
-  | 0, _ => .error .other
+  | 0, _ => .error .fuel
   | _+1, [] => .ok 0
   | f+1, bs =>
     match parseTagLen d bs with
